@@ -472,4 +472,209 @@ def rlScenario (steal : Bool) (old new : RLSpec) (pre : List FReq) (ops : List (
       r.2 :: goOps r.1 qs
   (p.2, goOps inh.1 ops)
 
+/-! ## Part 4 — `mux.reload` and `runtime.reload` as functions (tied by translation)
+
+`Gen/FactsC11IR.lean` regenerates `muxReloadIR` from the body of `mux.reload`
+(`pkg/object/httpserver/mux.go`) and `runtimeReloadIR` from the body of `runtime.reload`
+(`pkg/object/httpserver/runtime.go`) on every run; `Proofs/HotUpdateIR.lean` proves them equal to
+`muxReload` / `runtimeReload` below for all inputs.
+
+Objects the constructors return are kept symbolic but structured: an IP filter *is* the spec it
+was built from (`ipfilter.New`), a filter chain is the list of the specs appended so far
+(`newIPFilterChain` = parent's filters ++ the child's, `nil` = empty), a `MuxPath` / `muxRule`
+records what `newMuxPath` / `newMuxRule` were called with, a route cache is `some n` = a fresh
+`lru.NewARC(n)`, a tracer is `none` = nil, `some 0` = `tracing.NoopTracer`, `some (k+1)` = a tracer
+object. `tracing.New` and `lru.NewARC` are oracles (value, error?). -/
+
+/-- `*Rule` of the spec as far as `reload` reads it. -/
+structure SpecRule where
+  ipFilter : Option Nat      -- `*ipfilter.Spec` (identity), `none` = nil
+  paths : List Nat           -- `[]*Path` (identities)
+  id : Nat                   -- everything else of the rule (host, hostRegexp …)
+deriving DecidableEq, Repr
+
+/-- `*Spec` of an HTTPServer. `restartKey` stands for all fields that are *not* in
+`hotFields` (port, keepAlive, https, certs …): the ones `needRestartServer` compares. -/
+structure SrvSpec where
+  tracing : Option Nat
+  ipFilter : Option Nat
+  cacheSize : Nat
+  xForwardedFor : Bool
+  maxConnections : Nat
+  rules : List SpecRule
+  restartKey : Nat
+deriving DecidableEq, Repr
+
+/-- The `Spec` fields `needRestartServer` blanks before comparing (regenerated fact
+`needRestartIgnoredFields`): a change confined to them is applied by `mux.reload` /
+`SetMaxConnection` without closing the listener. -/
+def hotFields : List String :=
+  ["CacheSize", "IPFilter", "MaxConnections", "Rules", "Tracing", "XForwardedFor"]
+
+/-- `newIPFilterChain(parent, childSpec)`. -/
+def chainAppend (parent : List Nat) (child : Option Nat) : List Nat := parent ++ child.toList
+
+/-- `newMuxPath(chain, pathSpec)`. -/
+structure BuiltPath where
+  chain : List Nat
+  spec : Nat
+deriving DecidableEq, Repr
+
+/-- `newMuxRule(chain, ruleSpec, paths)`. -/
+structure BuiltRule where
+  chain : List Nat
+  spec : SpecRule
+  paths : List (Option BuiltPath)     -- `[]*MuxPath` (`none` = nil element)
+deriving DecidableEq, Repr
+
+/-- `*muxInstance`. -/
+structure MuxInst where
+  superSpec : Nat
+  spec : SrvSpec
+  muxMapper : Nat
+  httpStat : Nat
+  topN : Nat
+  ipFilter : Option Nat
+  ipFilterChan : List Nat
+  rules : List (Option BuiltRule)
+  tracer : Option Nat
+  cache : Option Nat
+deriving DecidableEq, Repr
+
+/-- The fields of `*mux` that survive a reload. -/
+structure MuxShared where
+  httpStat : Nat
+  topN : Nat
+deriving DecidableEq, Repr
+
+/-- What `mux.reload` does to shared state: exactly the stores into `m.inst`. -/
+inductive MuxEffect where
+  | store (inst : MuxInst)
+deriving DecidableEq, Repr
+
+/-- The tracer of the new instance: a new one iff the tracing spec changed (no-op tracer if
+`tracing.New` fails), else the old instance's (no-op if that was nil). The only thing taken from
+the old instance. -/
+def reloadTracer (newTracer : Option Nat → Option Nat × Bool) (old : MuxInst) (spec : SrvSpec) : Option Nat :=
+  if old.spec.tracing ≠ spec.tracing then
+    let r := newTracer spec.tracing
+    if r.2 then some 0 else r.1
+  else if old.tracer.isSome then old.tracer else some 0
+
+/-- One rule of the new instance: `newMuxRule(inst.ipFilterChan, specRule, paths)` with
+`paths[j] = newMuxPath(newIPFilterChain(inst.ipFilterChan, specRule.IPFilter), specRule.Paths[j])`. -/
+def buildRule (top : List Nat) (r : SpecRule) : BuiltRule :=
+  ⟨top, r, r.paths.map fun p => some ⟨chainAppend top r.ipFilter, p⟩⟩
+
+/-- The instance `mux.reload(superSpec, muxMapper)` builds: a function of the new spec, the new
+mapper, the mux's shared statistics objects, fresh caches — and of the old instance only through
+`reloadTracer`. -/
+def buildInstance (newTracer : Option Nat → Option Nat × Bool) (newARC : Nat → Option Nat × Bool)
+    (m : MuxShared) (old : MuxInst) (superSpec : Nat) (spec : SrvSpec) (muxMapper : Nat) : MuxInst :=
+  { superSpec := superSpec, spec := spec, muxMapper := muxMapper, httpStat := m.httpStat, topN := m.topN,
+    ipFilter := spec.ipFilter, ipFilterChan := chainAppend [] spec.ipFilter,
+    rules := spec.rules.map fun r => some (buildRule (chainAppend [] spec.ipFilter) r),
+    tracer := reloadTracer newTracer old spec,
+    cache := if spec.cacheSize > 0 then (newARC spec.cacheSize).1 else none }
+
+/-- `mux.reload`: build, then one `Store` — the `build u g; store u` of Part 1. -/
+def muxReload (newTracer : Option Nat → Option Nat × Bool) (newARC : Nat → Option Nat × Bool)
+    (m : MuxShared) (old : MuxInst) (superSpec : Nat) (spec : SrvSpec) (muxMapper : Nat) : List MuxEffect :=
+  [.store (buildInstance newTracer newARC m old superSpec spec muxMapper)]
+
+/-- The effects of `runtime.reload` in program order. -/
+inductive RtEffect where
+  | muxReload (superSpec : Nat) (muxMapper : Nat)
+  | setMaxConnection (n : Nat)
+  | startServer
+  | closeServer
+deriving DecidableEq, Repr
+
+/-- `runtime` fields `reload` reads / writes. -/
+structure Runtime where
+  superSpec : Nat
+  spec : Option SrvSpec          -- `r.spec` (`none` before the first load)
+  hasLimitListener : Bool        -- `r.limitListener != nil`
+deriving DecidableEq, Repr
+
+/-- `runtime.needRestartServer`: the specs differ outside `hotFields`. -/
+def needRestart (cur next : SrvSpec) : Bool := cur.restartKey != next.restartKey
+
+/-- What happens to the listener on a reload. -/
+inductive ServerAction where
+  | nothing | start | close | restart
+deriving DecidableEq, Repr
+
+/-- The decision of `runtime.reload` as a function of the old and the new spec. -/
+def runtimeReloadDecision (cur next : Option SrvSpec) : ServerAction :=
+  match cur, next with
+  | none, none => .nothing
+  | none, some _ => .start
+  | some _, none => .close
+  | some c, some n => if needRestart c n then .restart else .nothing
+
+def ServerAction.effects : ServerAction → List RtEffect
+  | .nothing => []
+  | .start => [.startServer]
+  | .close => [.closeServer]
+  | .restart => [.closeServer, .startServer]
+
+/-- `runtime.reload(nextSuperSpec, muxMapper)` (`nextSpec` = `nextSuperSpec.ObjectSpec()`): the mux is
+reloaded first and unconditionally, the connection cap follows, the listener is touched only
+according to `runtimeReloadDecision`. -/
+def runtimeReload (r : Runtime) (nextSuperSpec : Nat) (nextSpec : Option SrvSpec) (muxMapper : Nat) :
+    Runtime × List RtEffect :=
+  let cap : List RtEffect := match nextSpec with
+    | some n => if r.hasLimitListener then [.setMaxConnection n.maxConnections] else []
+    | none => []
+  ({ superSpec := nextSuperSpec, spec := nextSpec, hasLimitListener := r.hasLimitListener },
+   [.muxReload nextSuperSpec muxMapper] ++ cap ++ (runtimeReloadDecision r.spec nextSpec).effects)
+
+/-! ## Part 5 — classification of the registered kinds (the regenerated lists
+`FactsC11.filterKinds` / `objectKinds` must be covered: `Props/C11.lean`) -/
+
+/-- Filter kinds the `filters` harness instantiates and drives through
+Init / Inherit / Close / Handle on both generations (its generator table; the judge's
+`@inventory` case compares the table of the running harness with this list). -/
+def exercisedFilterKinds : List String :=
+  ["CORSAdaptor", "CertExtractor", "ConnectControl", "Fallback", "HeaderLookup", "HeaderToJSON",
+   "MQTTClientAuth", "MeshAdaptor", "Mock", "Proxy", "RateLimiter", "RemoteFilter", "RequestAdaptor",
+   "RequestBuilder", "ResponseAdaptor", "ResponseBuilder", "TopicMapper", "Validator"]
+
+/-- Filter kinds that cannot be instantiated in-process offline, with the reason. -/
+def notInstantiableFilterKinds : List (String × String) :=
+  [("Kafka", "kafkabackend: Init calls sarama.NewAsyncProducer(spec.Backend) directly and panics unless a Kafka broker answers the metadata request over TCP (only sarama's MockBroker would do; a manual probe with it shows the old generation panicking with `send on closed channel` seconds after Close — timing dependent, see notes/C11.md)"),
+   ("KafkaMQTT", "kafka: Init calls sarama.NewAsyncProducer through the unexported package variable newAsyncProducer; without a broker Init panics (only a package-internal test can substitute a mock producer); same Close/Handle code as Kafka"),
+   ("WasmHost", "wasmhost.go is excluded from the default build (//go:build wasmhost) and needs the wasmtime cgo runtime; the kind is not registered in a default binary")]
+
+/-- Filter kinds whose `Inherit` reads or writes the previous generation and which therefore have
+an explicit model (Part 3). -/
+def explicitlyModelledKinds : List String := ["RateLimiter"]
+
+/-- Object kinds (types registered with `supervisor.Register`) whose update path a C11 harness
+drives, with the harness. -/
+def exercisedObjectKinds : List (String × String) :=
+  [("HTTPServer", "mux / muxhist / muxrace: mux.reload + ServeHTTP (the runtime's event loop and listener are not started)"),
+   ("Pipeline", "filters (Pipeline.Init / Inherit / Handle) and registry (Create/Update/Apply/DeletePipeline)"),
+   ("TrafficController", "registry")]
+
+/-- Object kinds no C11 harness drives, with the reason. -/
+def notExercisedObjectKinds : List (String × String) :=
+  [("AutoCertManager", "needs an ACME directory and DNS/HTTP challenges (network)"),
+   ("ConsulServiceRegistry", "needs a Consul agent (network)"),
+   ("EaseMonitorMetrics", "needs a Kafka broker"),
+   ("EtcdServiceRegistry", "needs an external etcd cluster"),
+   ("EurekaServiceRegistry", "needs a Eureka server (network)"),
+   ("FaasController", "needs Knative / a Kubernetes API server"),
+   ("GlobalFilter", "instantiable; update = atomic.Value swap of two pipelines, covered by C02's globalfilter harness, not driven here"),
+   ("IngressController", "needs a Kubernetes API server"),
+   ("MQTTProxy", "opens a TCP listener and needs the cluster (etcd) for sessions; its pipelines are ordinary Pipelines (MQTT filter kinds are driven by the filters harness)"),
+   ("MeshController", "needs the cluster (etcd) and Kubernetes informers"),
+   ("NacosServiceRegistry", "needs a Nacos server (network)"),
+   ("RawConfigTrafficController", "thin wrapper that feeds TrafficController from cluster (etcd) watches"),
+   ("ServiceRegistry", "controller over the external registries above; no hot-path state of its own"),
+   ("StatusSyncController", "needs the cluster (etcd)"),
+   ("WebSocketServer", "opens a TCP listener and dials a backend websocket; update = Close + Init (no Inherit of state)"),
+   ("ZookeeperServiceRegistry", "needs a ZooKeeper ensemble (network)")]
+
 end EgVerif.HotUpdate
